@@ -26,9 +26,10 @@ type Reader struct {
 	DelayAt map[int64]time.Duration // delay before serving the read that starts at this offset
 	OnRead  func(off int64, n int)  // called after every successful Read
 
-	bytes atomic.Int64
-	calls atomic.Int64
-	mu    sync.Mutex
+	bytes   atomic.Int64
+	calls   atomic.Int64
+	eofCall atomic.Int64
+	mu      sync.Mutex
 }
 
 // NewReader wraps data.
@@ -46,6 +47,7 @@ func (r *Reader) Read(p []byte) (int, error) {
 		time.Sleep(d)
 	}
 	if pos >= int64(len(r.data)) {
+		r.eofCall.CompareAndSwap(0, call)
 		return 0, io.EOF
 	}
 	n := len(p)
@@ -68,6 +70,9 @@ func (r *Reader) Read(p []byte) (int, error) {
 
 // Bytes returns the number of bytes served so far.
 func (r *Reader) Bytes() int64 { return r.bytes.Load() }
+
+// EOFCall returns the index of the first Read call that returned io.EOF (0 = none yet).
+func (r *Reader) EOFCall() int64 { return r.eofCall.Load() }
 
 // Calls returns the number of Read calls so far.
 func (r *Reader) Calls() int64 { return r.calls.Load() }
